@@ -42,6 +42,7 @@ type State struct {
 	depth    int
 	ghostDone bool
 	loopEntry map[int]map[string]string // heap at the most recent entry of loop k (for entry(...))
+	loopIter  map[int]map[string]string // heap at the start of the current iteration of loop k (for iterstart(...))
 }
 
 func (st *State) clone() *State {
@@ -60,6 +61,7 @@ func (st *State) clone() *State {
 		depth:      st.depth,
 		ghostDone:  st.ghostDone,
 		loopEntry:  st.loopEntry,
+		loopIter:   st.loopIter,
 	}
 	for k, v := range st.env {
 		n.env[k] = v
@@ -250,7 +252,7 @@ func (c *FnCtx) assumeTypeFacts(st *State, v Val) {
 				st.assume(f)
 			}
 		case KString:
-			st.assume("(>= (strlen " + leaf.S + ") 0)")
+			st.assume("(and (>= (strlen " + leaf.S + ") 0) (<= (strlen " + leaf.S + ") 9223372036854775807))")
 		}
 	})
 	c.assumeShapeFacts(st, v)
